@@ -200,16 +200,18 @@ CLAIMED = {
          "contents, and every step is a stutter or the sequential operation. Also: each_node_dequeued_once (conservation incl. in-flight "
          "enqueues and chains in transit), dequeue_order, state_LAST_correct (the last-node cmpxchg race), enqueue_ret_consistent, "
          "empty_consistent, dequeue_null_iff_empty_at_some_instant and null_only_from_empty, splice_moves_all_in_order_and_empties_"
-         "source (source reusable), iteration_exact, wfq_is_fifo, wfq_each_node_once, C10_full_holds; necessity witnesses checked by "
-         "decide (no wait on a NULL next loses a node, empty() testing only head, splice without tail reset). Tie: the real "
+         "source (source reusable), iteration_exact; legacy cds_wfq (dummy node re-enqueued by the dequeuer): wfq_refines_fifo (history "
+         "of linearisation events is a legal sequential FIFO history ending in the abstract content), wfq_each_node_dequeued_once, "
+         "wfq_dequeue_order, wfq_null_only_when_empty, wfq_is_fifo; C10_full_holds; necessity witnesses checked by decide (no wait on "
+         "a NULL next loses a node, empty() testing only head, splice without tail reset, dummy re-enqueued without node_init delivers "
+         "a node twice). Tie: the real "
          "src/wfcqueue.c and src/wfqueue.c with their static headers, under the macro shim and the cooperative scheduler, in 5 "
          "configurations; every trace replayed by Driver/Wfcq.lean on the models; independent C oracles (reference FIFO updated at the "
          "tail exchanges: order, NULL/empty answers, return values, STATE_LAST, splice, iteration, conservation); random walk, PCT and a "
          "one-preemption sweep over every xchg->store window; required-branch coverage.",
     note="Trusted: Lean kernel; x86-TSO machine; API contracts as model guards (a node is enqueued only when in no queue and with no store "
          "in flight, because node hand-off synchronises; next() only on a queued node; consumer role); L1 ⊑ L2 checked on the explored "
-         "schedules only; plain accesses seen through later atomic loads; the legacy queue has a step-level refinement, not a "
-         "history-level theorem.",
+         "schedules only; plain accesses seen through later atomic loads.",
     technique="Lean 4 inductive invariant (one lemma per label) and refinement proofs on TSO transition systems with ghost abstract queues and linearisation events + event-level trace refinement of the real sources",
     design_ref="§4 C10", engine="wfcq"),
  "C17": dict(
